@@ -1,4 +1,4 @@
-package internalpkg
+package widepkg
 
 import (
 	"bytes"
@@ -24,7 +24,7 @@ type caseC09wide struct {
 var c09wide = gen.Register(&gen.Check[caseC09wide]{
 	Name: "C09/widereduce",
 	Gen: func(t *rapid.T) caseC09wide {
-		return caseC09wide{Data: hex.EncodeToString(gen48(t, ref.N))}
+		return caseC09wide{Data: hex.EncodeToString(gen.Wide48(t, ref.N))}
 	},
 	Fixed: func() []caseC09wide {
 		ff := bytes.Repeat([]byte{0xff}, 48)
